@@ -127,20 +127,22 @@ def ref_read(kind, lines):
     return {k: v for k, v in out.items() if v != PLACEHOLDER}
 
 
-def ref_draw(kind, S):
+def ref_draw(kind, S, pad=0):
     """Complete, untrimmed reference drawing of S: token lines (top first), or None when the
-    format cannot hold S (cells outside the represented domain)."""
+    format cannot hold S (cells outside the represented domain).  ``pad`` > 0 adds that many
+    outer rings (hex full / tips-up), top rows (third) or top rows and right columns (Cartesian)
+    holding only placeholders."""
     if not S:
         return None
     if kind == "cart":
         if min(i for i, _ in S) < 0 or min(j for _, j in S) < 0:
             return None
-        nx, ny = max(i for i, _ in S) + 1, max(j for _, j in S) + 1
+        nx, ny = max(i for i, _ in S) + 1 + pad, max(j for _, j in S) + 1 + pad
         return [[S.get((i, j), PLACEHOLDER) for i in range(nx)] for j in reversed(range(ny))]
     if kind == "third":
         if not all(in_third(*c) for c in S):
             return None
-        rmax = max(i + 2 * j for i, j in S)
+        rmax = max(i + 2 * j for i, j in S) + pad
         lines = []
         for r in range(rmax + 1):
             i0 = _third_base(r)
@@ -149,17 +151,17 @@ def ref_draw(kind, S):
             lines.append([S.get((i, (r - i) // 2), PLACEHOLDER) for i in range(i0, imax + 1, 2)])
         return list(reversed(lines))
     if kind == "full":
-        N = max(hexdist(*c) for c in S)
+        N = max(hexdist(*c) for c in S) + pad
         return [[S.get(c, PLACEHOLDER) for c in _full_row(N, r)] for r in range(2 * N, -2 * N - 1, -1)]
     if kind == "tips":
-        N = max(hexdist(*c) for c in S)
+        N = max(hexdist(*c) for c in S) + pad
         return [[S.get((c - N, 2 * N - t - c), PLACEHOLDER) for c in range(2 * N + 1)] for t in range(2 * N + 1)]
     raise ValueError(kind)
 
 
-def ref_text(kind, S):
+def ref_text(kind, S, pad=0):
     """Reference text (with geometric indentation) or None."""
-    lines = ref_draw(kind, S)
+    lines = ref_draw(kind, S, pad)
     if lines is None:
         return None
     w = max(len(v) for v in S.values())
@@ -175,7 +177,7 @@ def ref_text(kind, S):
             if kind == "third":
                 first = _third_base(n - 1 - t)
             else:
-                N = max(hexdist(*c) for c in S)
+                N = max(hexdist(*c) for c in S) + pad
                 first = _full_i0(N, 2 * N - t)
             off = first + 2 * n + 2
         out.append(" " * (w * off) + (" " * w).join(x.ljust(w) for x in toks).rstrip())
